@@ -172,7 +172,13 @@ impl Subscriber for StrictHost {
         let (idx, _) = meta_index(metadata);
         let mut st = self.state.lock().unwrap();
         st.log.push(format!("c reg m{idx} {}", Site::from_metadata(metadata).tok()));
-        Interest::sometimes()
+        drop(st);
+        // like tracing-subscriber's level filters: a call site the host disables gets `never`
+        if self.level_enabled(metadata) {
+            Interest::sometimes()
+        } else {
+            Interest::never()
+        }
     }
 
     fn enabled(&self, metadata: &Metadata<'_>) -> bool {
